@@ -1,60 +1,401 @@
-"""C01 exact arithmetic: Numeric / Number kernels"""
+"""C01 exact arithmetic + C02 dimensional analysis on the evaluator's operator dispatch.
+
+Entry: `eval_expr(ctx, BinOp{op, Unit a, Unit b})` with `Context::lookup` stubbed to hand out two
+arbitrary Numbers (unbounded rational value, symbolic exponent vector over a small base-unit
+universe).  Everything below the evaluator is the real MIR: Value ops, Number ops, Numeric ops,
+BigRat/BigInt wrappers, Dimensionality, btree_merge.
+"""
+import random
 import z3
 from .common import *  # noqa
 
+U_QUICK = ('kg', 'm', 's')
+U_THOROUGH = ('K', 'kg', 'm', 's')
+EXP_BOUND = 2 ** 31
 
-class NumberRem(Harness):
-    name = 'c01.number_rem'
-    props = ('C01', 'C04')
-    entry = 'Number::rem'
-    describe = 'l mod r on dimensionless rationals'
+OPSYM = {'Add': '+', 'Sub': '-', 'Frac': '/', 'Mod': 'mod', 'Mul': '*', 'Pow': '^', 'ShiftL': '<<', 'ShiftR': '>>',
+         'And': 'and', 'Or': 'or', 'Xor': 'xor'}
 
+
+def trunc_frac(x):
+    x = Fraction(x)
+    q = abs(x.numerator) // x.denominator
+    return q if x >= 0 else -q
+
+
+def oracle(op, l, r, dl, dr):
+    """textbook result: ('ok', value, dims) | ('err', why)"""
+    def merged(sign):
+        out = {}
+        for k in set(dl) | set(dr):
+            e = dl.get(k, 0) + sign * dr.get(k, 0)
+            if e != 0:
+                out[k] = e
+        return out
+    dl = {k: e for k, e in dl.items() if e != 0}
+    dr = {k: e for k, e in dr.items() if e != 0}
+    if op in ('Add', 'Sub'):
+        if dl != dr:
+            return ('err', 'dimension mismatch')
+        return ('ok', l + r if op == 'Add' else l - r, dl)
+    if op == 'Mul':
+        return ('ok', l * r, merged(1))
+    if op == 'Frac':
+        if r == 0:
+            return ('err', 'division by zero')
+        return ('ok', l / r, merged(-1))
+    if op == 'Mod':
+        if dl != dr:
+            return ('err', 'dimension mismatch')
+        if r == 0:
+            return ('err', 'mod by zero')
+        return ('ok', l - r * trunc_frac(l / r), dl)
+    if op in ('And', 'Or', 'Xor'):
+        if dl or dr:
+            return ('err', 'not dimensionless')
+        if l.denominator != 1 or r.denominator != 1:
+            return ('err', 'not integers')
+        a, b = l.numerator, r.numerator
+        return ('ok', Fraction({'And': a & b, 'Or': a | b, 'Xor': a ^ b}[op]), {})
+    if op in ('ShiftL', 'ShiftR'):
+        if dr:
+            return ('err', 'shift count not dimensionless')
+        if r.denominator != 1:
+            return ('err', 'shift count not an integer')
+        if abs(r) >= 2 ** 31:
+            return ('err', 'shift count too large')
+        e = r.numerator
+        if abs(e) > 4096:
+            return ('huge', None)
+        f = Fraction(2) ** e
+        return ('ok', l * f if op == 'ShiftL' else l / f, dl)
+    if op == 'Pow':
+        if dr:
+            return ('err', 'exponent not dimensionless')
+        if abs(r) >= 2 ** 31:
+            return ('err', 'exponent too large')
+        if r.denominator != 1:
+            return ('float-or-root', None)
+        e = r.numerator
+        if l == 0 and e < 0:
+            return ('err', 'zero to a negative power')
+        if abs(e) > 64:
+            return ('huge', None)
+        dims = {}
+        for k, x in dl.items():
+            if x * e != 0:
+                dims[k] = x * e
+        return ('ok', Fraction(l) ** e, dims)
+    raise ValueError(op)
+
+
+class EvalBinOp(Harness):
+    props = ('C01', 'C02', 'C04')
+    entry = 'eval_expr'
+    stubs = (LOOKUP_STUB, SHOW_STUB)
+    loop_bound = 12
+
+    def __init__(self, op, universe, tier, exps=None, name=None):
+        self.op = op
+        self.U = universe
+        self.exps = exps           # concrete right operands (pow / shifts value checks)
+        self.name = name or 'eval_expr.%s' % op.lower()
+        self.describe = 'eval_expr on `a %s b`, a and b arbitrary Numbers (unbounded rational value, exponent vectors over %s)' % (
+            OPSYM[op], '/'.join(universe))
+        self.bounds = ['base-unit universe %s, exponents within +-2^31 per operand' % (universe,)]
+        if exps is not None:
+            self.bounds.append('right operand concrete in %s (z3 has no symbolic exponentiation)' % (list(exps),))
+        self.assumptions = ['operand exponent maps carry no zero entry (representation invariant; asserted on outputs)']
+        self.expect_classes = ['Result::Ok', 'Result::Err'] if (op not in ('Mul',) and exps is None) else ['Result::Ok']
+        self._concrete = None
+        self.dimless_right = op in ('Pow', 'ShiftL', 'ShiftR') and exps is not None
+        self.int_ops = op in ('And', 'Or', 'Xor')
+
+    # -- symbolic pre-state
     def build(self, ex, I):
         l = I.real('l')
-        r = I.real('r')
-        a = number(rational(l), dim({}))
-        b = number(rational(r), dim({}))
-        return [ref(a), ref(b)], {'l': l, 'r': r}
-
-    def post(self, ex, ctx, outcome):
-        l, r = ctx['l'], ctx['r']
-        v = outcome[1]
-        obs = []
-        if is_ok(v):
-            val, d = number_parts(payload(v))
-            kind, x = numeric_parts(val)
-            obs.append(('mod by zero must be an error', r != 0))
-            obs.append(('result is rational', kind == 'rational'))
-            if kind == 'rational':
-                obs.append(('l mod r = l - r*trunc(l/r)', z3.Implies(r != 0, x == l - r * z3.ToReal(trunc_real(l / r)))))
+        if self.exps is not None:
+            if self._concrete is not None:
+                r = Fraction(self._concrete['r'])
+            else:
+                k = ex.choose(len(self.exps), 'right operand')
+                r = Fraction(self.exps[k])
+            entR = {}
+            DR = dim({})
         else:
-            obs.append(('error only when r == 0', r == 0))
+            r = I.real('r')
+            DR, entR = sym_dim(ex, I, 'dr', self.U, lo=-EXP_BOUND, hi=EXP_BOUND)
+        DL, entL = sym_dim(ex, I, 'dl', self.U, lo=-EXP_BOUND, hi=EXP_BOUND)
+        ex.env['units'] = {'a': number(rational(l), DL), 'b': number(rational(r), DR)}
+        if self.op == 'Mul':
+            e = expr_mul(ex, [expr_unit(ex, 'a'), expr_unit(ex, 'b')])
+        else:
+            e = expr_binop(ex, self.op, expr_unit(ex, 'a'), expr_unit(ex, 'b'))
+        return [ref(Opaque('Context')), ref(e)], {'l': l, 'r': r, 'entL': entL, 'entR': entR}
+
+    # -- obligations
+    def post(self, ex, ctx, outcome):
+        l, r, entL, entR = ctx['l'], ctx['r'], ctx['entL'], ctx['entR']
+        op = self.op
+        v = deref_all(outcome[1])
+        obs = []
+        same = dims_equal_formula(entL, entR)
+        dimlessL = z3.And(*[z3.Not(zbool(p)) for p, e in entL.values()]) if entL else True
+        dimlessR = z3.And(*[z3.Not(zbool(p)) for p, e in entR.values()]) if entR else True
+        lz, rz = zreal(l), zreal(r)
+        if is_ok(v):
+            val = deref_all(payload(v))
+            if not (isinstance(val, Enum) and val.ty == 'Value' and val.vname == 'Number'):
+                return [('result is a Number', False)]
+            num, d = number_parts(val.fields[0])
+            kind, x = numeric_parts(num)
+            # --- definedness (C01/C02: refused cases must not yield a number)
+            if op in ('Add', 'Sub', 'Mod'):
+                obs.append(('%s accepted only between identical dimensionalities' % op, same))
+            if op in ('Frac', 'Mod'):
+                obs.append(('%s by zero must be an error' % op, rz != 0))
+            if op in ('And', 'Or', 'Xor'):
+                obs.append(('bit operator operands dimensionless', b_and(dimlessL, dimlessR)))
+                obs.append(('bit operator operands integral', z3.And(z3.IsInt(lz), z3.IsInt(rz))))
+            if op in ('ShiftL', 'ShiftR', 'Pow'):
+                obs.append(('right operand dimensionless', dimlessR))
+            if op in ('ShiftL', 'ShiftR'):
+                obs.append(('shift count integral', z3.IsInt(rz)))
+                obs.append(('shift count within +-2^31', z3.And(rz > -2 ** 31, rz < 2 ** 31)))
+            if op == 'Pow':
+                obs.append(('zero to a negative integer power must be an error', z3.Not(z3.And(lz == 0, rz < 0, z3.IsInt(rz)))))
+            # --- exactness
+            exact_expected = not (op == 'Pow' and self.exps is None)
+            if exact_expected:
+                obs.append(('no float fallback for rational operands', kind == 'rational'))
+            if kind == 'rational':
+                x = zreal(x)
+                if op == 'Add':
+                    obs.append(('value = l + r', x == lz + rz))
+                elif op == 'Sub':
+                    obs.append(('value = l - r', x == lz - rz))
+                elif op == 'Mul':
+                    obs.append(('value = l * r', x == lz * rz))
+                elif op == 'Frac':
+                    obs.append(('value * r = l', z3.Implies(rz != 0, x * rz == lz)))
+                elif op == 'Mod':
+                    obs.append(('value = l - r*trunc(l/r)', z3.Implies(rz != 0, x == lz - rz * z3.ToReal(trunc_real(lz / rz)))))
+                elif op in ('And', 'Or', 'Xor'):
+                    f = z3.Function('bigint_bit' + op.lower(), z3.IntSort(), z3.IntSort(), z3.IntSort())
+                    obs.append(('value = %s of the two integer values' % op.lower(), x == z3.ToReal(f(z3.ToInt(lz), z3.ToInt(rz)))))
+                elif op in ('ShiftL', 'ShiftR') and self.exps is not None:
+                    e = int(r)
+                    f = Fraction(2) ** e if op == 'ShiftL' else Fraction(1) / (Fraction(2) ** e)
+                    obs.append(('value = l * 2^(%s%d)' % ('' if op == 'ShiftL' else '-', e), x == lz * zreal(f)))
+                elif op == 'Pow' and self.exps is not None and Fraction(r).denominator == 1:
+                    e = int(r)
+                    if e >= 0:
+                        p = z3.RealVal(1)
+                        for _ in range(e):
+                            p = p * lz
+                        obs.append(('value = l^%d' % e, x == p))
+                    else:
+                        p = z3.RealVal(1)
+                        for _ in range(-e):
+                            p = p * lz
+                        obs.append(('value * l^%d = 1' % -e, z3.Implies(lz != 0, x * p == 1)))
+            # --- dimensional algebra (C02)
+            for k in sorted(set(entL) | set(entR) | set(d)):
+                eL = eff_exp(entL, k)
+                eR = eff_exp(entR, k)
+                if op in ('Add', 'Sub', 'Mod', 'ShiftL', 'ShiftR', 'And', 'Or', 'Xor'):
+                    want = eL
+                elif op == 'Mul':
+                    want = n_add(eL, eR)
+                elif op == 'Frac':
+                    want = n_sub(eL, eR)
+                elif op == 'Pow':
+                    if self.exps is not None and Fraction(r).denominator == 1:
+                        want = n_mul(eL, int(r))
+                    else:
+                        continue
+                got_p, got_e = d.get(k, (False, 0))
+                obs.append(('unit[%s]: present iff exponent != 0' % k, n_eq(got_p, b_not(n_eq(want, 0)))))
+                obs.append(('unit[%s]: exponent' % k, b_or(b_not(got_p), n_eq(got_e, want))))
+                obs.append(('unit[%s]: no zero exponent carried' % k, b_or(b_not(got_p), b_not(n_eq(got_e, 0)))))
+        elif is_err(v):
+            e = deref_all(payload(v))
+            obs.append(('error is QueryError::Generic', isinstance(e, Enum) and e.vname == 'Generic'))
+            # an error is legitimate only when the mathematics is undefined / operands are refused
+            if op in ('Add', 'Sub'):
+                obs.append(('error only on dimension mismatch', z3.Not(zbool(same))))
+            elif op == 'Mul':
+                obs.append(('multiplication never fails', False))
+            elif op == 'Frac':
+                obs.append(('error only when r == 0', rz == 0))
+            elif op == 'Mod':
+                obs.append(('error only on mismatch or r == 0', z3.Or(z3.Not(zbool(same)), rz == 0)))
+            elif op in ('And', 'Or', 'Xor'):
+                obs.append(('error only for dimensioned or non-integer operands',
+                            z3.Or(z3.Not(zbool(dimlessL)), z3.Not(zbool(dimlessR)), z3.Not(z3.IsInt(lz)), z3.Not(z3.IsInt(rz)))))
+            elif op in ('ShiftL', 'ShiftR'):
+                obs.append(('error only for dimensioned / non-integer / huge shift count',
+                            z3.Or(z3.Not(zbool(dimlessR)), z3.Not(z3.IsInt(rz)), rz >= 2 ** 31, rz <= -2 ** 31)))
+            elif op == 'Pow':
+                root_refusal = True   # roots / fractional powers have their own refusals (C02 harness)
+                if self.exps is not None and Fraction(r).denominator == 1:
+                    obs.append(('integer power refused only for 0^negative', z3.And(lz == 0, rz < 0)))
+        else:
+            obs.append(('eval_expr returns a Result', False))
         return obs
 
+    def prefer(self, ctx):
+        """preferences for counterexample models: small exponents, small non-zero values"""
+        prefs = []
+        for ent in (ctx['entL'], ctx['entR']):
+            for k, (p, e) in ent.items():
+                if is_z3(e):
+                    prefs.append(z3.And(e >= -3, e <= 3))
+        for v in (ctx['l'], ctx['r']):
+            if is_z3(v):
+                prefs.append(v != 0)
+                prefs.append(z3.And(v >= -1000, v <= 1000))
+                prefs.append(z3.IsInt(v * 12))
+        return prefs
 
-class DivRem(Harness):
-    name = 'c09.div_rem'
-    props = ('C09',)
-    entry = 'Numeric::div_rem'
+    # -- native confirmation
+    def _conc(self, inputs):
+        l = Fraction(inputs['l'])
+        r = Fraction(inputs['r']) if 'r' in inputs else None
+        dl = conc_dim(inputs, 'dl', self.U)
+        dr = conc_dim(inputs, 'dr', self.U)
+        return l, r, dl, dr
 
-    def build(self, ex, I):
-        l = I.real('l')
-        r = I.real('r')
-        ex.assume(r != 0)
-        return [ref(rational(l)), ref(rational(r))], {'l': l, 'r': r}
+    def case(self, ctx, vals, label):
+        c = Harness.case(self, ctx, vals, label)
+        if self.exps is not None:
+            c['inputs']['r'] = jsonable_frac(ctx['r'])
+        return c
 
-    def post(self, ex, ctx, outcome):
-        l, r = ctx['l'], ctx['r']
-        t = deref_all(outcome[1])
-        kq, q = numeric_parts(t.fields[0])
-        kr, rem = numeric_parts(t.fields[1])
-        absr = z3.If(r >= 0, r, -r)
-        absrem = z3.If(rem >= 0, rem, -rem)
-        return [('both rational', kq == 'rational' and kr == 'rational'),
-                ('l = q*r + rem', l == q * r + rem),
-                ('q integral', z3.IsInt(q)),
-                ('|rem| < |r|', absrem < absr),
-                ('sign(rem) in {0, sign(l)}', z3.Or(rem == 0, (rem > 0) == (l > 0)))]
+    def native(self, inputs, label):
+        l, r, dl, dr = self._conc(inputs)
+        kop = {'Add': 'add', 'Sub': 'sub', 'Mul': 'mul', 'Frac': 'div', 'Mod': 'rem', 'Pow': 'pow', 'ShiftL': 'shl',
+               'ShiftR': 'shr', 'And': 'and', 'Or': 'or', 'Xor': 'xor'}[self.op]
+        reqs = [{'mode': 'number_op', 'op': kop, 'a': number_json(l, dl), 'b': number_json(r, dr)}]
+        a, b = qty_text(l, dl), qty_text(r, dr)
+        if a is not None and b is not None and self._cheap(l, r):
+            reqs.append({'mode': 'query', 'text': '%s %s %s' % (a, OPSYM[self.op], b)})
+        return reqs
+
+    def _cheap(self, l, r):
+        if self.op in ('ShiftL', 'ShiftR', 'Pow'):
+            return r.denominator == 1 and abs(r) <= 4096
+        return True
+
+    def judge(self, inputs, label, obs):
+        l, r, dl, dr = self._conc(inputs)
+        exp = oracle(self.op, l, r, dl, dr)
+        k = obs[0]
+        q = obs[1] if len(obs) > 1 else None
+        verdicts = []
+        for lvl, o in (('kernel', k), ('query', q)):
+            if o is None:
+                continue
+            if o.get('outcome') == 'panic':
+                verdicts.append((lvl, True, 'panic: %s' % o.get('panic')))
+                continue
+            if o.get('outcome') == 'timeout':
+                cheap = exp[0] in ('ok', 'err')
+                verdicts.append((lvl, cheap, 'no answer within 8 s / 8 GiB although the exact result is small' if cheap else 'timeout on a legitimately huge result'))
+                continue
+            if o.get('render_panic'):
+                verdicts.append((lvl, True, 'render panic: %s' % o.get('render_panic')))
+                continue
+            got = kernel_number(o) if lvl == 'kernel' else obs_number_json(o)
+            if exp[0] == 'err':
+                bad = got is not None
+                verdicts.append((lvl, bad, 'expected an error (%s), got %s' % (exp[1], got)))
+            elif exp[0] == 'ok':
+                if got is None:
+                    verdicts.append((lvl, True, 'expected %s %s, got an error/none: %s' % (exp[1], exp[2], (o.get('display') or o.get('error') or o.get('outcome')))))
+                else:
+                    bad = (got[0] != exp[1]) or (got[1] != exp[2])
+                    verdicts.append((lvl, bad, 'expected %s %s, got %s %s' % (exp[1], exp[2], got[0], got[1])))
+            else:
+                verdicts.append((lvl, False, 'no exact oracle (%s)' % exp[0]))
+        text = '; '.join('%s: %s' % (lvl, w) for lvl, b, w in verdicts)
+        qv = [b for lvl, b, w in verdicts if lvl == 'query']
+        kv = [b for lvl, b, w in verdicts if lvl == 'kernel']
+        if qv and qv[0]:
+            return True, text
+        if kv and kv[0]:
+            return ('kernel-only' if not qv else False), text
+        return False, text
+
+    # -- translator validation vectors
+    def vectors(self, rng):
+        vals = [Fraction(0), Fraction(1), Fraction(-1), Fraction(7, 2), Fraction(-22, 7), Fraction(2 ** 70 + 1, 3),
+                Fraction(-5), Fraction(12), Fraction(1, 2 ** 65), Fraction(255), Fraction(-256)]
+        out = []
+        for _ in range(10):
+            v = {'l': rng.choice(vals), 'r': rng.choice(vals)}
+            if self.exps is not None:
+                v['r'] = Fraction(rng.choice(self.exps))
+            for tag in ('dl', 'dr'):
+                same = rng.random() < 0.5
+                for u in self.U:
+                    has = rng.random() < 0.4
+                    v['%s_has_%s' % (tag, u)] = has
+                    v['%s_exp_%s' % (tag, u)] = rng.choice([1, -1, 2, 3, -2]) if has else 1
+            if rng.random() < 0.5:
+                for u in self.U:
+                    v['dr_has_%s' % u] = v['dl_has_%s' % u]
+                    v['dr_exp_%s' % u] = v['dl_exp_%s' % u]
+            if self.exps is not None:
+                for u in self.U:
+                    v['dr_has_%s' % u] = False
+            if self.op in ('And', 'Or', 'Xor', 'ShiftL', 'ShiftR', 'Pow') and rng.random() < 0.7:
+                for u in self.U:
+                    v['dr_has_%s' % u] = False
+                    if self.op in ('And', 'Or', 'Xor'):
+                        v['dl_has_%s' % u] = False
+                if self.op in ('ShiftL', 'ShiftR', 'Pow') and self.exps is None:
+                    v['r'] = Fraction(rng.choice([0, 1, 2, 3, 5, 7] if self.op != 'Pow' else [0, 1, 2, 3, 5, -1, -2]))
+            out.append(v)
+        return out
+
+    def build_concrete_choice(self):
+        pass
+
+    def agree(self, vec, outcome, o):
+        """MIR interpretation vs native number_op on the same concrete inputs"""
+        if outcome[0] == 'panic':
+            if outcome[1].startswith('RESOURCE'):
+                return (o.get('outcome') == 'timeout'), 'MIR: %s native: %s' % (outcome[1], o.get('outcome'))
+            return (o.get('outcome') == 'panic'), 'MIR: panic (%s) native: %s' % (outcome[1], o.get('outcome'))
+        v = deref_all(outcome[1])
+        if is_ok(v):
+            val = deref_all(payload(v))
+            mine = model_number_obs(val.fields[0])
+            got = kernel_number(o)
+            if got is None:
+                return False, 'MIR: Ok %s native: %s' % (mine, o)
+            if mine[0] == 'float':
+                return (isinstance(got[0], str) and mine[1] == got[1]), 'MIR float vs native %s' % (got,)
+            return (mine[0] == got[0] and mine[1] == got[1]), 'MIR: %s native: %s' % (mine, got)
+        return (o.get('outcome') in ('err', 'none')), 'MIR: Err native: %s' % o.get('outcome')
 
 
-HARNESSES = [NumberRem(), DivRem()]
+def jsonable_frac(v):
+    v = Fraction(v)
+    return '%d/%d' % (v.numerator, v.denominator)
+
+
+def harnesses(tier):
+    U = U_QUICK if tier == 'quick' else U_THOROUGH
+    hs = []
+    for op in ('Add', 'Sub', 'Mul', 'Frac', 'Mod', 'And', 'Or', 'Xor', 'ShiftL', 'ShiftR', 'Pow'):
+        hs.append(EvalBinOp(op, U, tier))
+    ints = list(range(-4, 5)) if tier == 'quick' else list(range(-8, 9))
+    hs.append(EvalBinOp('Pow', U, tier, exps=ints, name='eval_expr.pow.int_exponents'))
+    hs.append(EvalBinOp('ShiftL', U, tier, exps=[0, 1, 2, 7, 64, -1, -3], name='eval_expr.shiftl.values'))
+    hs.append(EvalBinOp('ShiftR', U, tier, exps=[0, 1, 2, 7, 64, -1, -3], name='eval_expr.shiftr.values'))
+    return hs
+
+
+HARNESSES = harnesses('quick')
